@@ -174,6 +174,8 @@ func c06Classes(c *eng.Ctx, r *eng.Report, sites []moneySite) {
 				msg = "beneficiary is not credited with the contract's own GetBalance()"
 			} else if len(callsNamed(fn, ".Suicide")) != 1 {
 				msg = "the contract is not zeroed with Suicide()"
+			} else if su := callsNamed(fn, ".Suicide")[0]; len(eng.CondsAt(su)) != len(eng.CondsAt(credits[0].call)) || !(su.Block() == credits[0].call.Block() || credits[0].call.Block().Dominates(su.Block())) {
+				msg = "the beneficiary is credited unconditionally but Suicide(), which zeroes the contract's balance, runs only under an additional condition: on the other branch the balance is paid out and kept"
 			}
 		case "genesis":
 			if len(debits) != 0 {
